@@ -8,6 +8,7 @@ a = old.index("## 1. What the family reaches here")
 b = old.index("## 4. Per-property status")
 mid = old[a:b]
 REPL = [
+ ("  .work/                 generated files, replay files (git-ignored)", "  tools/                 helper scripts used while building (tools/README.md); no registered check needs them\n  vx/mutscore.py perturb.py harmless.sh   how much the contracts pin down; no alarm on harmless edits (section 8)\n  .work/                 generated files, replay files (git-ignored)"),
  ("  **E1′ region** (C20 only): `//@ region` copies the statements between two\n  anchors of a function and wraps them in a given signature — a\n  substitution-based extraction, reported as such.",
   "  Items declared *inside* a function body are addressed as `wrap_line::CurrLine::reset`.\n  **E1′ region**: `//@ region` copies the statements of a function between two\n  anchors (`from`/`fromafter`/`to`/`until`, `^` = start of the body; also the body of\n  the single `lazy_static!` block of a file) and wraps them in a given signature,\n  optionally returning named locals (`//@tail`); the trailing `,` of a field\n  initialiser is dropped. A substitution-based extraction, reported as such; used\n  for closures, for parts of functions whose remainder is out of reach, and for\n  C20. `optional=1` on a `//@ fn` makes the absence of a function that a repair\n  introduced a non-event (the callers' contracts then decide)."),
  ("**R4** closure with a tuple-pattern parameter", "`//@ litconst` makes the integer literal of a `const` of the source available to the\n  spec text. `//@ghostdefault n: T = v` declares a ghost constant when the body no\n  longer declares the local `n` that contract text names. **R4** closure with a tuple-pattern parameter"),
